@@ -12,11 +12,20 @@ class is translated into the small symbolic language of ``lean/MiciVerif/Lemmas/
 * ``super().m(...)`` is resolved along the MRO *of the concrete class* and inlined (its branches are
   spliced when the call is the returned expression, otherwise it must have a single branch);
 * ``type(self)(...)`` is resolved to the concrete class name;
-* anything not represented (loops, ``try``, ``with``, lambdas, chained comparisons, ...) becomes
-  ``SExpr.unknown`` and sets ``unknown := true`` on that method: the Lean obligations look methods up
-  through ``lookup``, which returns ``none`` for such a method, so they fail (fail closed).
+* ``for v in it: acc = body`` (a loop whose body is ONE plain assignment to a name, no ``else``) becomes
+  ``acc := SExpr.fold body acc v it init`` (inlined locals that mention a name the loop rebinds are poisoned);
+* ``a[idx] = v`` becomes the functional update ``a := SExpr.setitem a idx v`` -- only for a local ``a`` that holds
+  the result of an arithmetic expression and has since been mentioned only inside arithmetic / comparisons
+  (so no other name can alias it; ``b = a``, ``b = a[1:]``, ``f(a)`` at top level revoke this);
+* tuple targets may mix names and ``self.attr``; a constructor (``__init__``) returns
+  ``<init>(attr=value, ..., super=(args))``: its attribute stores and the arguments of a final
+  ``super().__init__(...)``;
+* anything else not represented (other loops, ``try``, ``with``, lambdas, chained comparisons, augmented
+  assignment, ...) becomes ``SExpr.unknown`` and sets ``unknown := true`` on that method: the Lean obligations
+  look methods up through ``lookup``, which returns ``none`` for such a method, so they fail (fail closed).
 
-Also emitted: the module-level ``_choose_matrix_product_class`` (``chooseProduct``) and, on the entry
+Also emitted: ``softabs`` / ``grad_softabs`` / ``__init__`` of ``SoftAbsRegularizedPositiveDefiniteMatrix``
+(``softabsFn``, ``gradSoftabsFn``, ``softabsInit``), the module-level ``_choose_matrix_product_class`` (``chooseProduct``) and, on the entry
 of each abstract class, the operator / lazy-cache wrappers it defines (``__neg__``, ``__truediv__``,
 ``__matmul__``, ``transpose``, ``inv``, ``sqrt`` ...).
 
@@ -45,6 +54,7 @@ OPS = [
     "grad_log_abs_det",
     "grad_quadratic_form_inv",
 ]
+SOFTABS = "SoftAbsRegularizedPositiveDefiniteMatrix"
 WRAPPERS = ["__mul__", "__rmul__", "__truediv__", "__neg__", "__matmul__", "__rmatmul__", "transpose", "inv", "sqrt"]
 MODULE_ALIASES = {"np", "nla", "sla", "numbers", "abc"}
 
@@ -89,6 +99,15 @@ def first_unknown(e):
     return None
 
 
+def mentions_var(e, names):
+    """Does the symbolic expression mention one of the free names `names` (as `var`)?"""
+    if not isinstance(e, tuple):
+        return False
+    if e and e[0] == "var":
+        return e[1] in names
+    return any(mentions_var(x, names) for x in e[1:])
+
+
 def q(s):
     return json.dumps(s)
 
@@ -121,6 +140,10 @@ def render(e):
         return f"(.kw {q(e[1])} {render(e[2])} {render(e[3])})"
     if t == "gen":
         return f"(.gen {render(e[1])} {q(e[2])} {render(e[3])})"
+    if t == "fold":
+        return f"(.fold {render(e[1])} {q(e[2])} {q(e[3])} {render(e[4])} {render(e[5])})"
+    if t == "setitem":
+        return f"(.setitem {render(e[1])} {render(e[2])} {render(e[3])})"
     if t == "unknown":
         return f"(.unknown {q(e[1])})"
     raise AssertionError(t)
@@ -239,6 +262,7 @@ BINOPS = {ast.Add: "add", ast.Sub: "sub", ast.Mult: "mul", ast.Div: "div", ast.M
 CMPOPS = {ast.Gt: ">", ast.GtE: ">=", ast.Lt: "<", ast.LtE: "<=", ast.Eq: "==", ast.NotEq: "!=", ast.Is: "is",
           ast.IsNot: "is not", ast.In: "in", ast.NotIn: "not in"}
 MAX_PATHS = 64
+FRESH = "$fresh"  # env key (not an identifier): names of locals that are unaliased fresh arrays
 
 
 class Translator:
@@ -246,6 +270,7 @@ class Translator:
         self.mod = mod
         self.cls = cls  # concrete class the table entry is for (None: module-level function)
         self.depth = 0
+        self.init_mode = False  # translating a constructor: see `init_result`
 
     # -- expressions ---------------------------------------------------------------------
     def expr(self, node, env, owner):
@@ -424,16 +449,19 @@ class Translator:
             if isinstance(s, ast.Assign) and len(s.targets) == 1:
                 t = s.targets[0]
                 if isinstance(t, ast.Name):
-                    env[t.id] = self.expr(s.value, env, owner)
+                    val = self.expr(s.value, env, owner)
+                    self.track_fresh(env, [t.id], s.value)
+                    env[t.id] = val
                     continue
-                if isinstance(t, ast.Tuple) and all(isinstance(e, ast.Name) for e in t.elts):
+                if isinstance(t, ast.Tuple) and all(isinstance(e, ast.Name) or self.is_self_attr(e, env) for e in t.elts):
+                    self.track_fresh(env, [e.id for e in t.elts if isinstance(e, ast.Name)], s.value)
                     if isinstance(s.value, ast.Tuple) and len(s.value.elts) == len(t.elts):
                         vals = [self.expr(v, env, owner) for v in s.value.elts]
                     else:
                         v = self.expr(s.value, env, owner)
                         vals = [("index", v, ("num", k)) for k in range(len(t.elts))]
                     for e, v in zip(t.elts, vals):
-                        env[e.id] = v
+                        env[e.id if isinstance(e, ast.Name) else "self." + e.attr] = v
                     continue
                 if isinstance(t, ast.Attribute) and isinstance(t.value, ast.Name) and t.value.id == "self" \
                         and "self" not in env:
@@ -442,7 +470,19 @@ class Translator:
                 if isinstance(t, ast.Attribute) and t.attr == "writeable" and isinstance(t.value, ast.Attribute) \
                         and t.value.attr == "flags":
                     continue  # read-only flag: no effect on values (C19 covers it)
+                if isinstance(t, ast.Subscript) and isinstance(t.value, ast.Name) and t.value.id in env \
+                        and t.value.id in env.get(FRESH, frozenset()):
+                    # item assignment `a[idx] = v` on a local array that no other name can alias:
+                    # functional update of the local
+                    x = t.value.id
+                    env[x] = ("setitem", env[x], self.expr(t.slice, env, owner), self.expr(s.value, env, owner))
+                    continue
                 return [(conds, U("assignment target " + type(t).__name__))]
+            if isinstance(s, ast.For):
+                r = self.for_loop(s, env, owner)
+                if r is None:
+                    return [(conds, U("statement For"))]
+                continue
             if isinstance(s, ast.If):
                 c = self.expr(s.test, env, owner)
                 out = self.block(list(s.body) + list(rest), env, conds + [c], owner)
@@ -466,8 +506,82 @@ class Translator:
                 return [(conds, self.expr(v, env, owner))]
             if isinstance(s, ast.Raise):
                 return [(conds, ("raise",))]
+            if self.init_mode and not rest and isinstance(s, ast.Expr) and isinstance(s.value, ast.Call) \
+                    and isinstance(s.value.func, ast.Attribute) and s.value.func.attr == "__init__" \
+                    and isinstance(s.value.func.value, ast.Call) and isinstance(s.value.func.value.func, ast.Name) \
+                    and s.value.func.value.func.id == "super" and not s.value.func.value.args:
+                # constructor ending in `super().__init__(args)`: the attribute stores so far + that call
+                try:
+                    args = self._args(s.value, env, owner)
+                except Unrepresentable as e:
+                    return [(conds, U(e))]
+                return [(conds, self.init_result(env, args))]
             return [(conds, U("statement " + type(s).__name__))]
+        if self.init_mode:
+            return [(conds, self.init_result(env, None))]
         return [(conds, ("none",))]
+
+    @staticmethod
+    def is_self_attr(e, env):
+        return isinstance(e, ast.Attribute) and isinstance(e.value, ast.Name) and e.value.id == "self" and "self" not in env
+
+    @staticmethod
+    def init_result(env, super_args):
+        """`<init>(attr=value, ..., super=(args))`: what a constructor stores on `self` (in order of first
+        assignment) and what it passes to `super().__init__`."""
+        items = [("kw", k[5:], v) for k, v in env.items() if k.startswith("self.")]
+        if super_args is not None:
+            items.append(("kw", "super", ("tuple", super_args)))
+        return ("call", "<init>", chain(items))
+
+    @staticmethod
+    def track_fresh(env, targets, value):
+        """Maintain the set of local names bound to an array no other name can alias (the result of
+        an arithmetic expression that has not been mentioned since in anything but arithmetic /
+        comparisons): only those may be the target of an item assignment."""
+        fresh = set(env.get(FRESH, frozenset()))
+        if value is not None:
+            used = {n.id for n in ast.walk(value) if isinstance(n, ast.Name)}
+            if not isinstance(value, (ast.BinOp, ast.Compare, ast.UnaryOp)):
+                fresh -= used
+        for t in targets:
+            fresh.discard(t)
+        if value is not None and isinstance(value, ast.BinOp) and len(targets) == 1:
+            fresh.add(targets[0])
+        env[FRESH] = frozenset(fresh)
+
+    def for_loop(self, s, env, owner):
+        """`for v in it: acc = body` (one plain assignment, no else / break) becomes
+        `acc := fold body acc v it init`; updates `env` in place, returns None if not that shape."""
+        if s.orelse or len(s.body) != 1 or getattr(s, "type_comment", None):
+            return None
+        b = s.body[0]
+        if not (isinstance(b, ast.Assign) and len(b.targets) == 1 and isinstance(b.targets[0], ast.Name)):
+            return None
+        if isinstance(s.target, ast.Name):
+            names = [s.target.id]
+        elif isinstance(s.target, ast.Tuple) and all(isinstance(e, ast.Name) for e in s.target.elts):
+            names = [e.id for e in s.target.elts]
+        else:
+            return None
+        acc = b.targets[0].id
+        if acc in names:
+            return None
+        it = self.expr(s.iter, env, owner)
+        init = env.get(acc, ("var", acc))
+        bound = set(names) | {acc}
+        env2 = {}
+        for k, v in env.items():
+            if k in bound:
+                continue
+            # an inlined local that mentions a name the loop rebinds would be captured
+            env2[k] = U("local captured by loop") if (k != FRESH and mentions_var(v, bound)) else v
+        body = self.expr(b.value, env2, owner)
+        env[acc] = ("fold", body, acc, ",".join(names), it, init)
+        for nm in names:
+            env[nm] = U("loop variable used after the loop")
+        self.track_fresh(env, [acc] + names, None)
+        return True
 
     def method(self, name, owner, fn):
         formals = [a.arg for a in fn.args.args]
@@ -493,6 +607,7 @@ def method_entry(mod, cls, name):
     if cls is not None and mod.is_abstract_def(fn):
         return {"name": name, "definedIn": d, "kind": "abstract", "branches": [], "unknown": False, "why": ""}
     tr = Translator(mod, cls)
+    tr.init_mode = name == "__init__"
     try:
         brs = tr.method(name, d, fn)
         why = ""
@@ -525,7 +640,12 @@ def extract(repo: Path):
         table.append({"name": c, "abstract": abstract, "mro": mod.mro[c], "wrappers": wrappers, "methods": methods})
     choose = method_entry(mod, None, "_choose_matrix_product_class")
     tri = method_entry(mod, None, "_make_array_triangular")
-    return {"table": table, "chooseProduct": choose, "makeTriangular": tri}
+    softabs = [method_entry(mod, SOFTABS if SOFTABS in mod.classes else None, nm)
+               for nm in ("softabs", "grad_softabs", "__init__")]
+    if SOFTABS not in mod.classes or softabs[2]["definedIn"] != SOFTABS:
+        softabs[2] = {"name": "__init__", "definedIn": "", "kind": "missing", "branches": [], "unknown": False, "why": ""}
+    return {"table": table, "chooseProduct": choose, "makeTriangular": tri, "softabs": softabs[0],
+            "gradSoftabs": softabs[1], "softabsInit": softabs[2]}
 
 
 def render_method(m, indent):
@@ -566,7 +686,13 @@ def emit(repo: Path, out: Path) -> None:
         data = {"table": [], "chooseProduct": {"name": "_choose_matrix_product_class", "definedIn": "", "kind": "missing",
                                                 "branches": [], "unknown": True, "why": "extractor failure"},
                 "makeTriangular": {"name": "_make_array_triangular", "definedIn": "", "kind": "missing",
-                                   "branches": [], "unknown": True, "why": "extractor failure"}}
+                                   "branches": [], "unknown": True, "why": "extractor failure"},
+                "softabs": {"name": "softabs", "definedIn": "", "kind": "missing",
+                            "branches": [], "unknown": True, "why": "extractor failure"},
+                "gradSoftabs": {"name": "grad_softabs", "definedIn": "", "kind": "missing",
+                                "branches": [], "unknown": True, "why": "extractor failure"},
+                "softabsInit": {"name": "__init__", "definedIn": "", "kind": "missing",
+                                "branches": [], "unknown": True, "why": "extractor failure"}}
         fatal = f"-- EXTRACTOR FAILURE ({type(e).__name__}: {str(e)[:120]}): empty table, every obligation fails\n"
     parts = [HEADER, fatal]
     names = []
@@ -587,5 +713,11 @@ def emit(repo: Path, out: Path) -> None:
                  else "def table : List ClassOps := []\n\n")
     parts.append("def chooseProduct : Method :=\n" + render_method(data["chooseProduct"], 2) + "\n\n")
     parts.append("def makeTriangular : Method :=\n" + render_method(data["makeTriangular"], 2) + "\n\n")
+    parts.append("/-- `SoftAbsRegularizedPositiveDefiniteMatrix.softabs` / `.grad_softabs` (formal `x`) -/\n")
+    parts.append("def softabsFn : Method :=\n" + render_method(data["softabs"], 2) + "\n\n")
+    parts.append("def gradSoftabsFn : Method :=\n" + render_method(data["gradSoftabs"], 2) + "\n\n")
+    parts.append("/-- `SoftAbsRegularizedPositiveDefiniteMatrix.__init__`: `<init>(attr=value, ..., super=(args))` = the\n"
+                 "attributes it stores and the arguments it passes to `super().__init__` -/\n")
+    parts.append("def softabsInit : Method :=\n" + render_method(data["softabsInit"], 2) + "\n\n")
     parts.append("end MiciVerif.Generated.MatrixOps\n")
     (Path(out) / "MatrixOps.lean").write_text("".join(parts))
